@@ -402,8 +402,10 @@ func (r *resourceManager) openConnection(dir network.Direction, usefd bool, endp
 		// Failed to open connection, let's see if this was allowlisted and try again
 		allowed := r.allowlist.Allowed(endpoint)
 		if allowed {
-			conn.Done()
-			conn = newAllowListedConnectionScope(dir, usefd, r.limits.GetConnLimits(), r, endpoint)
+			// release the refused scope but keep the conn-limiter count: the
+			// allow-listed scope takes it over (and returns it in Done)
+			conn.resourceScope.Done()
+			conn = newAllowListedConnectionScope(dir, usefd, r.limits.GetConnLimits(), r, endpoint, ip)
 			err = conn.AddConn(dir, usefd)
 		}
 	}
@@ -571,7 +573,7 @@ func newConnectionScope(dir network.Direction, usefd bool, limit Limit, rcmgr *r
 	}
 }
 
-func newAllowListedConnectionScope(dir network.Direction, usefd bool, limit Limit, rcmgr *resourceManager, endpoint multiaddr.Multiaddr) *connectionScope {
+func newAllowListedConnectionScope(dir network.Direction, usefd bool, limit Limit, rcmgr *resourceManager, endpoint multiaddr.Multiaddr, ip netip.Addr) *connectionScope {
 	return &connectionScope{
 		resourceScope: newResourceScope(limit,
 			[]*resourceScope{rcmgr.allowlistedTransient.resourceScope, rcmgr.allowlistedSystem.resourceScope},
@@ -580,6 +582,7 @@ func newAllowListedConnectionScope(dir network.Direction, usefd bool, limit Limi
 		usefd:         usefd,
 		rcmgr:         rcmgr,
 		endpoint:      endpoint,
+		ip:            ip,
 		isAllowlisted: true,
 	}
 }
